@@ -35,7 +35,7 @@ Definition chk_C01_step (cfg : config) (before : list obs_alloc) (o : ostep) : b
       end
   | _, _ => false
   end.
-Definition chk_C01 (c : rcase) : bool := all_steps (chk_C01_step (rc_cfg c)) [] (rc_steps c).
+Definition chk_C01_gate (c : rcase) : bool := all_steps (chk_C01_step (rc_cfg c)) [] (rc_steps c).
 
 (* ---------- C02 ---------- *)
 Definition chk_C02_step (before : list obs_alloc) (o : ostep) : bool :=
@@ -53,7 +53,7 @@ Definition chk_C02_step (before : list obs_alloc) (o : ostep) : bool :=
       end
   | _, _ => false
   end.
-Definition chk_C02 (c : rcase) : bool := all_steps chk_C02_step [] (rc_steps c).
+Definition chk_C02_gate (c : rcase) : bool := all_steps chk_C02_step [] (rc_steps c).
 
 (* ---------- C05: intact, exactly once, truthful; oversize dropped ---------- *)
 Definition chk_C05_step (cfg : config) (before : list obs_alloc) (o : ostep) : bool :=
@@ -227,6 +227,11 @@ Fixpoint chk_C07_from (cfg : config) (t : Z) (pe : list (pkey * Z)) (ce : list (
       chk_C07_from cfg t' pe'' ce'' r
   end.
 Definition chk_C07 (c : rcase) : bool := chk_C07_from (rc_cfg c) 0 [] [] (rc_steps c).
+
+(* C01 / C02 in full: the gate (data moves only through a permission/binding that is PRESENT) together
+   with "present = unexpired by the lifetimes the server reported" (the C06 and C07 specifications) *)
+Definition chk_C01 (c : rcase) : bool := chk_C01_gate c && chk_C06 c && chk_C07 c.
+Definition chk_C02 (c : rcase) : bool := chk_C02_gate c && chk_C06 c && chk_C07 c.
 
 (* ---------- C08 ---------- *)
 Definition bijective (a : obs_alloc) : bool :=
